@@ -12,5 +12,6 @@ CONSTANTS
   PhaseKept = FALSE
 SPECIFICATION TraceSpec
 INVARIANT Observed
+PROPERTY ObservedIrq
 POSTCONDITION TraceAccepted
 CHECK_DEADLOCK FALSE
